@@ -139,10 +139,8 @@ theorem pythPre_spec {value : Nat} {e : Int} {v d : Nat} (h : pythPre value e = 
   by_cases he : e ≤ 0
   · rw [if_pos he] at h
     split at h
+    · cases h; exact ⟨fun _ => ⟨rfl, rfl⟩, fun hc => by omega⟩
     · cases h
-    · split at h
-      · cases h; exact ⟨fun _ => ⟨rfl, rfl⟩, fun hc => by omega⟩
-      · cases h
   · rw [if_neg he] at h
     split at h
     · cases h
